@@ -777,6 +777,9 @@ def compute_kdf_context(
     l1: int,
     l2: int,
 ) -> bytes:
+    if not all(-0x80000000 <= idx <= 0x7FFFFFFF for idx in (l0, l1, l2)):
+        raise ValueError(f"Group key identifier ({l0}, {l1}, {l2}) is not in the valid range")
+
     return b"".join(
         [
             key_guid.bytes_le,
